@@ -5,12 +5,14 @@
    its fuel for every buffer and state (no loop without consuming input); the handshake step has no failure other than its
    two declared errors (digest offsets always inside the packet, C11).  Sessions: C03_server_never_panics /
    C03_client_never_panics - no call in any reachable state reaches a panic site of the model or exhausts a loop's fuel; the
-   acknowledgement counter saturates (C17).  PARTIAL for what a Gallina model cannot exhibit: real panics / overflow checks (harness builds the library
+   acknowledgement counter saturates (C17).  Allocation follows the input at model level: C03_deserializer_call_memory /
+   C03_deserializer_history_memory (stored bytes + delivered payload <= bytes fed, ChunkDeMemory.v), C03_serializer_output_bounded,
+   and the AMF0 decoder's size bound (C14).  PARTIAL for what a Gallina model cannot exhibit: real panics / overflow checks (harness builds the library
    with overflow-checks and catches unwinds), hangs (20 s watchdog) and peak heap per case (counting allocator) are
    observations of the harness on generated, mutated and random input for every entry point. *)
 From RML Require Import Model.Base Model.Amf0 Model.Chunk Model.ChunkDe Model.Messages Model.Handshake
   Proofs.Amf0Total Proofs.TotalProofs Proofs.ChunkDeProofs Proofs.ChunkDeFuel Proofs.ServerProofs Proofs.SessionFrame.
-From RML Require Import Model.Server Model.Client.
+From RML Require Import Model.Server Model.Client Proofs.ChunkDeMemory Proofs.SerSizeProofs Model.ChunkSer.
 Local Open Scope N_scope.
 
 Theorem C03_message_decoder_total : forall tid data, is_value_or_error (of_payload tid data).
@@ -49,6 +51,22 @@ Proof. exact client_never_panics. Qed.
 Theorem C03_handshake_step_total : forall hmac h, match snd (hs_step hmac h) with SProgress _ | SDone _ | SFail _ => True end.
 Proof. exact hs_step_total. Qed.
 
+(* allocation follows the input (model level): what the chunk deserializer stores - input buffer plus the partial payloads of all
+   chunk streams - plus the payload it delivered never exceeds what it stored before plus the bytes of the call; over any history
+   of calls from a new deserializer, stored + delivered <= bytes fed, whether the run completes or stops at an error *)
+Theorem C03_deserializer_call_memory : forall st input st' r, get_next_message st input = (st', r) ->
+  (stored st' + match r with DMsg m => length (m_data m) | _ => 0 end <= stored st + length input)%nat.
+Proof. exact get_next_message_memory. Qed.
+
+Theorem C03_deserializer_history_memory : forall pieces st' ms r, feed_all de_init pieces [] = (st', ms, r) ->
+  (stored st' + paylen ms <= length (concat pieces))%nat.
+Proof. exact history_memory. Qed.
+
+(* and what a session writes is bounded by what it was asked to send: a packet is at most 17 * payload + 16 bytes *)
+Theorem C03_serializer_output_bounded : forall (st : ChunkSer.sstate) m force drop b st',
+  (1 <= s_max st)%N -> ChunkSer.serialize st m force drop = Ok (b, st') -> (lenN b <= 17 * lenN (m_data m) + 16)%N.
+Proof. exact serialize_size. Qed.
+
 Print Assumptions C03_message_decoder_total.
 Print Assumptions C03_amf0_decoder_total.
 Print Assumptions C03_chunk_stage_total.
@@ -57,3 +75,6 @@ Print Assumptions C03_chunk_driving_loop_terminates.
 Print Assumptions C03_server_never_panics.
 Print Assumptions C03_client_never_panics.
 Print Assumptions C03_handshake_step_total.
+Print Assumptions C03_deserializer_call_memory.
+Print Assumptions C03_deserializer_history_memory.
+Print Assumptions C03_serializer_output_bounded.
